@@ -219,6 +219,19 @@ def observe(rule, rnd, with_occ):
     e = {"rule": jl(rule), "text": L(text)}
     try:
         back = vRecur.from_ical(text)
+        # reads of parts that are not set (on the built and on the decoded rule) are reads: they change nothing
+        for obj in (r, back):
+            for absent in ("BYSETPOS", "UNTIL", "X-NOT-THERE", "byeaster"):
+                if absent.upper() in obj:
+                    continue
+                try:
+                    obj[absent]
+                except KeyError:
+                    pass
+                obj.get(absent)
+                absent in obj
+        if r.to_ical().decode() != text:
+            e["text"] = L(r.to_ical().decode())          # judged by TLC against the supplied parts
         e["back"] = alpha_rule(back)
         e["again"] = L(back.to_ical())
     except Exception as x:   # noqa: BLE001
